@@ -31,7 +31,17 @@ pub struct Cfg {
     /// max requests per connection (2 = a second request on a keep-alive connection)
     pub max_req: u8,
     pub mode: Mode,
+    /// BULK configuration (many interchangeable connections, to reach the capacity of the worker queues): the clients
+    /// act in index order (symmetry reduction), handlers never wait (gates open by themselves), and the exploration is
+    /// phased: first every client connects and sends, then the acceptor dispatches all of them while the workers are
+    /// held at their first checkpoint, then `shutdown` is called; after that the releases of the acceptor and of the
+    /// workers interleave freely.
+    #[serde(default)]
+    pub bulk: bool,
 }
+
+/// Capacity of a worker's connection queue (`max_queue_length` of `pavex::server`).
+pub const QUEUE_CAP: usize = 15;
 
 #[derive(Clone, Copy, PartialEq, Eq, Hash, Debug, Serialize, Deserialize, PartialOrd, Ord)]
 pub enum Action {
@@ -93,6 +103,8 @@ pub enum Class {
     MidHandler,
     /// sent after the call on a connection made after the call
     LateConnect,
+    /// the acceptor dropped the connection before the call (every worker queue was full)
+    Dropped,
 }
 
 #[derive(Clone, Copy, PartialEq, Eq, Hash, Debug, Serialize, Deserialize)]
@@ -123,6 +135,8 @@ pub struct State {
     pub called: bool,
     pub cmd_pending: bool,
     pub resolved: bool,
+    /// the acceptor's `next_worker` cursor (advances only when a queue is full)
+    pub next_w: u8,
 }
 
 /// What the executor has to wait for after performing an action on the real system.
@@ -138,6 +152,8 @@ pub enum Expect {
     WMsgConn(u8, u8),
     WMsgShutdown(u8),
     WDrained(u8, u8),
+    /// every worker queue was full: the acceptor dropped the connection
+    ADropped(u8),
     Entered(u8),
     Response(u8),
     Closed(u8),
@@ -169,6 +185,7 @@ impl State {
             called: false,
             cmd_pending: false,
             resolved: false,
+            next_w: 0,
         }
     }
 
@@ -183,7 +200,44 @@ impl State {
             .map(|i| i as u8)
     }
 
+    /// BULK discipline (see `Cfg::bulk`).
+    fn enabled_bulk(&self) -> Vec<Action> {
+        let mut v = Vec::new();
+        if !self.called {
+            // phase 1: clients connect and send, in index order, one at a time
+            if let Some(i) = self.c.iter().position(|c| !matches!(c.loc, Loc::NotConnected | Loc::Gone) && c.sent == 0) {
+                return vec![Action::Send(i as u8)];
+            }
+            if let Some(i) = self.next_unconnected() {
+                return vec![Action::Connect(i)];
+            }
+            // phase 2: the acceptor dispatches everything while the workers are held; the call may also arrive while the
+            // acceptor holds the LAST connection (picked, not yet dispatched)
+            if matches!(self.a, APos::MsgConn(_)) && self.backlog.is_empty() {
+                return vec![Action::RelA, Action::Call { late: false }];
+            }
+            if matches!(self.a, APos::Loop | APos::MsgConn(_)) {
+                return vec![Action::RelA];
+            }
+            // phase 3: the call
+            return vec![Action::Call { late: false }];
+        }
+        // phase 4: free interleaving of the releases
+        if matches!(self.a, APos::Loop | APos::MsgConn(_) | APos::MsgShutdown | APos::ShutdownSent) {
+            v.push(Action::RelA);
+        }
+        for (w, p) in self.w.iter().enumerate() {
+            if matches!(p, WPos::Loop | WPos::MsgConn(_) | WPos::MsgShutdown | WPos::Drained) {
+                v.push(Action::RelW(w as u8));
+            }
+        }
+        v
+    }
+
     pub fn enabled(&self) -> Vec<Action> {
+        if self.cfg.bulk {
+            return self.enabled_bulk();
+        }
         let mut v = Vec::new();
         if matches!(
             self.a,
@@ -256,6 +310,9 @@ impl State {
                 if c.delivered > c.entered {
                     c.entered += 1;
                     ex.push(Expect::Entered(i as u8));
+                    if self.cfg.bulk {
+                        c.opened = c.entered; // handlers never wait in bulk configurations
+                    }
                     changed = true;
                 }
                 if c.entered > c.responded && c.opened > c.responded {
@@ -323,7 +380,8 @@ impl State {
                             Loc::Started(_) if c.entered > c.responded => Class::MidHandler,
                             Loc::Started(_) if c.responded > 0 => Class::KeepAliveUnparsed,
                             Loc::Started(_) => Class::StartedUnparsed,
-                            Loc::NotConnected | Loc::Gone => unreachable!(),
+                            Loc::Gone => Class::Dropped,
+                            Loc::NotConnected => unreachable!(),
                         });
                     }
                 }
@@ -359,18 +417,38 @@ impl State {
                     }
                 }
                 APos::MsgConn(i) => {
-                    // `next_worker` only advances when a queue is full (15): always worker 0 here.
-                    let w = 0u8;
-                    ex.push(Expect::ADispatched(i, w));
-                    ex.push(Expect::ALoop);
+                    // `next_worker` only advances when a queue is full (QUEUE_CAP messages not yet taken by the worker)
+                    let n = s.w.len();
+                    let mut target: Option<u8> = None;
+                    for _ in 0..n {
+                        let w = s.next_w;
+                        if s.w[w as usize] == WPos::Parked || s.queue[w as usize].len() < QUEUE_CAP {
+                            target = Some(w);
+                            break;
+                        }
+                        s.next_w = (w + 1) % n as u8;
+                    }
                     s.a = APos::Loop;
-                    if s.w[w as usize] == WPos::Parked {
-                        s.c[i as usize].loc = Loc::Queued(w);
-                        s.w[w as usize] = WPos::MsgConn(i);
-                        ex.push(Expect::WMsgConn(w, i));
-                    } else {
-                        s.c[i as usize].loc = Loc::Queued(w);
-                        s.queue[w as usize].push(i);
+                    match target {
+                        Some(w) => {
+                            ex.push(Expect::ADispatched(i, w));
+                            ex.push(Expect::ALoop);
+                            if s.w[w as usize] == WPos::Parked {
+                                s.c[i as usize].loc = Loc::Queued(w);
+                                s.w[w as usize] = WPos::MsgConn(i);
+                                ex.push(Expect::WMsgConn(w, i));
+                            } else {
+                                s.c[i as usize].loc = Loc::Queued(w);
+                                s.queue[w as usize].push(i);
+                            }
+                        }
+                        None => {
+                            // all queues full: the connection is dropped (and closed)
+                            ex.push(Expect::ADropped(i));
+                            ex.push(Expect::ALoop);
+                            ex.push(Expect::Closed(i));
+                            s.c[i as usize].loc = Loc::Gone;
+                        }
                     }
                 }
                 APos::MsgShutdown => {
@@ -448,9 +526,13 @@ impl State {
                         // are closed, unread bytes included.
                         s.w[wi] = WPos::Wait;
                         if POLLS_BEFORE_SIGNAL.load(std::sync::atomic::Ordering::Relaxed) {
+                            let bulk = s.cfg.bulk;
                             for (i, c) in s.c.iter_mut().enumerate() {
                                 if c.loc == Loc::Started(w) && c.delivered > c.entered {
                                     c.entered += 1;
+                                    if bulk {
+                                        c.opened = c.entered; // handlers never wait in bulk configurations
+                                    }
                                     ex.push(Expect::Entered(i as u8));
                                 }
                             }
